@@ -28,6 +28,7 @@ type Config struct {
 	PanicsAreViolations bool
 	Fallback    []string
 	MaxViolations int
+	PerSite       int
 	EagerChecks bool
 	Profile     bool
 	ConcIndex   bool
@@ -113,6 +114,7 @@ type Machine struct {
 	Stats      Stats
 	Violations []*Violation
 	seenViol   map[string]bool
+	siteCount  map[string]int
 	Reached    map[string]int
 	FuncsRun   map[*ssa.Function]int64
 	SamplePCs  []string
@@ -153,6 +155,7 @@ type Machine struct {
 func NewMachine(prog *ssa.Program, ctx *sym.Ctx, solver *sym.Solver, cfg Config) *Machine {
 	m := &Machine{prog: prog, ctx: ctx, solver: solver, Cfg: cfg}
 	m.seenViol = map[string]bool{}
+	m.siteCount = map[string]int{}
 	m.Reached = map[string]int{}
 	m.FuncsRun = map[*ssa.Function]int64{}
 	m.fnInfos = map[*ssa.Function]*fnInfo{}
@@ -596,15 +599,28 @@ func (m *Machine) violationAt(kind, label string, md *sym.Model, detail string, 
 	if kind == "assert" {
 		key = kind + "|" + label
 	}
-	if m.seenViol[key] {
-		return
-	}
-	m.seenViol[key] = true
 	if md == nil {
 		md = m.model
 	}
 	v := &Violation{Kind: kind, Label: label, Pos: pos, Fn: fn, Stack: st, Detail: detail}
 	v.Inputs = m.inputVals(md)
+	// one violation per site, or (PerSite > 1) up to PerSite with pairwise different
+	// explored choices, so that the driver has alternatives when one does not replay
+	per := m.Cfg.PerSite
+	if per < 1 {
+		per = 1
+	}
+	ck := key + "|"
+	for _, in := range v.Inputs {
+		if in.Kind == "choice" {
+			ck += fmt.Sprintf("%s=%d,", in.Name, in.Val)
+		}
+	}
+	if m.seenViol[ck] || m.siteCount[key] >= per {
+		return
+	}
+	m.seenViol[ck] = true
+	m.siteCount[key]++
 	m.Violations = append(m.Violations, v)
 }
 
